@@ -417,6 +417,12 @@ func genC12(g GenCtx) interface{} {
 		p = 100
 	}
 	sc.ListLatMs = [2]int{pickInt(rng, 0, 0, p/2, p), pickInt(rng, 0, 0, p/2, 2*p)}
+	if rng.Intn(12) == 0 {
+		// "no periodic resync" spelled as a zero or negative period
+		sc.ZeroPeriod, sc.ZeroPeriodNs, sc.PeriodMs = true, int64(pickInt(rng, 0, 0, -1, -1000000000)), 1
+		sc.ListLatMs = [2]int{pickInt(rng, 3, 10), pickInt(rng, 2, 20)}
+		sc.Sim.MaxSteps = 600000
+	}
 	sc.Bufsiz = pickInt(rng, 100, 100, 4)
 	nkeys := 1 + rng.Intn(4)
 	sc.Init = genInit(rng, nkeys)
@@ -467,13 +473,29 @@ func genC12(g GenCtx) interface{} {
 		}
 		sc.Trigger.AtStep = (g.Idx / 4) % span
 	}
+	if g.Idx%16 == 9 && !sc.ZeroPeriod {
+		// a relist that differs from the cache by hundreds of objects (the watch
+		// is connected but silent), with the shutdown request landing while the
+		// controller is busy applying and distributing it
+		sc.WatchMode = "silent"
+		sc.Faults = map[string]world.Fault{}
+		sc.PeriodMs = pickInt(rng, 50, 100)
+		sc.ListLatMs = [2]int{0, pickInt(rng, 0, 5)}
+		nb := pickInt(rng, 130, 200, 300, 400)
+		sc.Acts = append(sc.Acts, TAct{Op: "bulk", Ms: nb}, TAct{Op: "sleep", Ms: 3 * sc.PeriodMs})
+		// the big relist starts roughly one period after the bulk write, i.e.
+		// after the steps of everything before it; its processing takes ~3 steps
+		// per object and subscriber
+		sc.Trigger = &Trigger{AtStep: est + rng.Intn(8*nb+200), Kind: pick(rng, "close", "close", "cancel")}
+		sc.Sim.MaxSteps = 400000
+	}
 	sc.CloseAtEnd = true
 	return sc
 }
 
 // ---------------------------------------------------------------- C14
 
-var listFailKinds = []string{"error", "error-with-list", "error-with-full-list", "error-timeout", "error-canceled", "error-canceled-bare", "error-deadline-bare", "error-notrunning", "error-notrunning-wrapped", "nonlist", "nonobjects", "noitems", "status-object", "nil"}
+var listFailKinds = []string{"error", "error-typed-nil", "error-with-list", "error-with-full-list", "error-timeout", "error-canceled", "error-canceled-bare", "error-deadline-bare", "error-notrunning", "error-notrunning-wrapped", "nonlist", "nonobjects", "noitems", "status-object", "nil"}
 
 func genC14(g GenCtx) interface{} {
 	sc, rng := baseTree(g)
@@ -608,6 +630,8 @@ func genC08(g GenCtx) interface{} {
 	sc.Init = genInit(rng, nkeys)
 	static := rng.Intn(2) == 0
 	sc.Static = static
+	// (only with a static server: a watch started "from now" may miss what was written since the list)
+	sc.EmptyListRV = static && sc.PeriodMs == 0 && rng.Intn(3) == 0
 	fail := g.Idx%7 == 6 // the first list fails in one run out of seven
 	failKind := listFailKinds[(g.Idx/7)%len(listFailKinds)]
 	b := &treeBuilder{sc: sc}
